@@ -292,7 +292,7 @@ func (x *Exec) applyContract(st *State, fc *FuncContract, args []Val, rt types.T
 		} else {
 			env2.result = []Val{res}
 		}
-	} else if res.S != "" {
+	} else if res.S != "" || res.BI == "array" {
 		env2.result = []Val{res}
 	}
 	for _, ec := range fc.Ensures {
@@ -336,7 +336,7 @@ func (x *Exec) classOfEntry(st *State, fc *FuncContract, m *ModEntry, env *specE
 			return "gg:" + c, "", ""
 		}
 		if strings.HasPrefix(c, "elems:") || strings.HasPrefix(c, "mem:") || strings.HasPrefix(c, "mapP:") || strings.HasPrefix(c, "mapV:") {
-			return c, "", ""
+			return canonString(c), "", ""
 		}
 		// Type.field
 		i := strings.LastIndex(c, ".")
